@@ -2235,7 +2235,8 @@ PROCS = [
                    ("removeSection", ("Fun", [("Rec", "IniRec"), "Str"], ("Rec", "IniRec"))), ("addSection", ("Fun", [("Rec", "IniRec"), "Str"], ("Rec", "IniRec"))),
                    ("setValue", ("Fun", [("Rec", "IniRec"), ("Rec", "OvRec")], ("Except", "OvErr", ("Rec", "IniRec"))))],
          ops={"_set_value": ("setValue", [("Rec", "IniRec"), ("Rec", "OvRec")], ("Except", "OvErr", ("Rec", "IniRec")))}, inout_calls={"_set_value": 0},
-         raises=[("not found in configuration file when processing overrides", "OvErr.missing"), ("already exists in configuration file whilst adding", "OvErr.exists")]),
+         raises=[("not found in configuration file when processing overrides", "OvErr.missing"), ("already exists in configuration file whilst adding", "OvErr.exists"),
+                 ("cannot be added, the section name is empty", "OvErr.missing")]),
     # ---- C14: the command-line layer
     dict(name="create_override_tuple", file="tools/potable/__init__.py", func="_create_override_tuple",
          params=[("key", "Str"), ("has_value", "Bool")], ret=("Except", "OvErr", ("Rec", "OvRec")), records=INI_REC, unpack_error="OvErr.malformedOption",
